@@ -185,6 +185,7 @@ func usableTail(z *decimal.Decimal, before Obs) (msg string) {
 	if err != nil {
 		return "re-encoding failed: " + err.Error()
 	}
+	enc = ownBytes(enc)
 	var z2 decimal.Decimal
 	if err := z2.GobDecode(enc); err != nil {
 		return fmt.Sprintf("the accepted value %s does not round-trip: decoding its own encoding %x failed: %v", before, enc, err)
@@ -192,20 +193,24 @@ func usableTail(z *decimal.Decimal, before Obs) (msg string) {
 	if o2 := observe(&z2); o2.String()+o2.Digits != before.String()+before.Digits {
 		return fmt.Sprintf("the accepted value does not round-trip: %s -> %s", before, o2)
 	}
-	return ""
+	// the receiver goes on living: the next value it is given must be its own
+	// memory, not something the decode also left with the scratch pool
+	return reuseReceiver(z, "accepted")
 }
 
-func reuseAfterReject(z *decimal.Decimal) (msg string) {
+func reuseAfterReject(z *decimal.Decimal) string { return reuseReceiver(z, "rejected") }
+
+func reuseReceiver(z *decimal.Decimal, what string) (msg string) {
 	defer func() {
 		if r := recover(); r != nil {
-			msg = fmt.Sprintf("using the receiver of a rejected payload panicked: %v", r)
+			msg = fmt.Sprintf("using the receiver of a payload GobDecode %s panicked: %v", what, r)
 		}
 	}()
 	z.SetUint64(1234567890123456789)
 	before := observe(z)
 	churnPool()
 	if after := observe(z); after.String()+after.Digits != before.String()+before.Digits {
-		return fmt.Sprintf("after GobDecode rejected the payload the receiver was set to %s; it changed to %s while unrelated operations ran", before, after)
+		return fmt.Sprintf("after GobDecode %s the payload the receiver was set to %s; it changed to %s while unrelated operations ran", what, before, after)
 	}
 	return ""
 }
@@ -359,7 +364,18 @@ func transmitted(sc *Scenario) (*decimal.Decimal, []byte, error) {
 		}
 	}
 	b, err := x.GobEncode()
-	return x, b, err
+	return x, ownBytes(b), err
+}
+
+// ownBytes takes possession of a slice a library call returned: the harness
+// keeps a copy and overwrites the original, as a caller that reuses the buffer
+// would. A later call must not be affected (the slice is the caller's).
+func ownBytes(b []byte) []byte {
+	c := append([]byte(nil), b...)
+	for i := range b {
+		b[i] = 0x5b
+	}
+	return c
 }
 
 func seqMuts(r rng, n int, L int) []ByteMut {
